@@ -294,6 +294,9 @@ BadDirect(p, o, stored, direct, req) ==
                                c \in {req[a.t][k] : k \in 1..Len(req[a.t])} /\ a.t \in DOMAIN o
                                /\ c \in DOMAIN o[a.t].hasf /\ ~o[a.t].hasf[c]   \* a plain data column
                                /\ a.t \in DOMAIN p /\ c \in DOMAIN p[a.t].hasf /\ ~p[a.t].hasf[c]
+                               \* (and not an empty column: typing into one first converts it to a data
+                               \*  column, which writes defaults into the same cells, indirectly)
+                               /\ c \in DOMAIN p[a.t].isf /\ ~p[a.t].isf[c]
      \* maintenance of summary-table ROWS = adding and removing them (an update of a group-by cell of a
      \* summary table can also be the clean-up of references to removed rows, which belongs to the request)
   IN {<<i, "summary-direct">> : i \in {k \in 1..n : stored[k].n \in {"BulkAddRecord", "BulkRemoveRecord"}
